@@ -286,6 +286,100 @@ theorem parse_binds (bs : List Bound) (rest : List Tok) (hb : ∀ b ∈ bs, b.ok
         · simp [hlen]
 
 
+theorem renderArg_body (a : ArgCall) : renderArg a = (match a.content with | none => [] | some _ => blanks a.pre) ++ argBody a := by
+  obtain ⟨spec, pre, content⟩ := a
+  cases content with
+  | none => simp [renderArg, argBody]
+  | some ts => simp [renderArg, argBody, blanks]
+
+theorem argBody_head (a : ArgCall) (ts : List Tok) (hw : wfArg a = true) (hc : a.content = some ts) :
+    ∃ t r, argBody a = t :: r ∧ t ≠ .sp := by
+  obtain ⟨spec, pre, content⟩ := a
+  simp only at hc; subst hc
+  cases spec with
+  | tok =>
+    by_cases hb : isBare ts = true
+    · obtain ⟨t, rfl, hsp, _⟩ := isBare_iff ts hb
+      exact ⟨t, [], by simp [argBody, renderArg, hb, blanks], hsp⟩
+    · exact ⟨.bg false, ts ++ [.eg false], by simp [argBody, renderArg, hb, blanks], by simp⟩
+  | chr c =>
+    simp only [wfArg, beq_iff_eq] at hw
+    subst hw
+    exact ⟨.ch c, [], by simp [argBody, renderArg, blanks], by simp⟩
+  | pair b e =>
+    refine ⟨if b = 123 then Tok.bg false else .ch b, ts ++ [if e = 125 then Tok.eg false else .ch e],
+      by simp [argBody, renderArg, blanks], ?_⟩
+    split <;> simp
+
+theorem ros_renderArg (a : ArgCall) (ts X : List Tok) (hw : wfArg a = true) (hc : a.content = some ts) :
+    readOptionalSpaces (renderArg a ++ X) = argBody a ++ X := by
+  obtain ⟨t, r, hb, hsp⟩ := argBody_head a ts hw hc
+  rw [renderArg_body, hc, hb]
+  simp only [List.append_assoc, List.cons_append]
+  exact ros_blanks _ _ _ hsp
+
+/-- **`Macro.parse` with the recorded source.** As `parse_binds`, and the source pieces the invocation records
+    (`argSource`) are, argument by argument, exactly the text written for it (nothing for an absent optional argument),
+    without the blanks in front. -/
+theorem parse_binds_src (bs : List Bound) (rest : List Tok) (hb : ∀ b ∈ bs, b.ok)
+    (hw : wfCall (bs.map (·.call)) rest = true) :
+    parse (bs.map (·.arg)) (renderCall (bs.map (·.call)) ++ rest) =
+      .ok (bs.map (·.val), bs.map (fun b => some (argBody b.call)),
+           if endsAbsent (bs.map (·.call)) then readOptionalSpaces rest else rest) := by
+  induction bs with
+  | nil => simp [parse, renderCall, endsAbsent]
+  | cons b bs ih =>
+    obtain ⟨hspec, hty, hval⟩ := hb b (List.mem_cons_self)
+    simp only [List.map_cons, wfCall, Bool.and_eq_true] at hw
+    obtain ⟨⟨hwa, hwas⟩, hab⟩ := hw
+    have ih' := ih (fun x hx => hb x (List.mem_cons_of_mem _ hx)) hwas
+    simp only [List.map_cons, parse, renderCall, List.append_assoc]
+    cases hc : b.call.content with
+    | some toks =>
+      rw [hc] at hval
+      have hpres := readArgument_present b.arg (renderArg b.call ++ (renderCall (bs.map (·.call)) ++ rest)) toks _ _ b.val hty
+        (by rw [hspec]; exact delimit_present b.call toks _ hwa hc) (hval _)
+      rw [ros_renderArg b.call toks _ hwa hc] at hpres
+      have htake : List.take ((argBody b.call ++ (renderCall (bs.map (·.call)) ++ rest)).length -
+          (renderCall (bs.map (·.call)) ++ rest).length) (argBody b.call ++ (renderCall (bs.map (·.call)) ++ rest)) = argBody b.call := by
+        rw [List.length_append, Nat.add_sub_cancel]; simp
+      rw [htake] at hpres
+      rw [hpres]
+      simp only [ih']
+      cases hbs : bs.map (·.call) with
+      | nil => simp [endsAbsent_single, hc, endsAbsent]
+      | cons a2 as2 => rw [endsAbsent_cons_cons]
+    | none =>
+      rw [hc] at hval
+      have hren : renderArg b.call = [] := by simp [renderArg, hc]
+      have hbody : argBody b.call = [] := by simp [argBody, renderArg, hc]
+      have habs : delimit b.call.spec (readOptionalSpaces (renderCall (bs.map (·.call)) ++ rest)) =
+          (none, readOptionalSpaces (renderCall (bs.map (·.call)) ++ rest)) := by
+        rw [hc] at hab
+        cases hs : b.call.spec with
+        | tok => simp [wfArg, hs, hc] at hwa
+        | chr c => rw [hs] at hab; exact delimit_absent_chr c _ (by simpa using hab)
+        | pair bb e => rw [hs] at hab; exact delimit_absent_pair bb e _ (by simpa using hab)
+      rw [hren, List.nil_append, readArgument_absent b.arg _ _ hty (by rw [hspec]; exact habs)]
+      simp only [hval, hbody]
+      cases hbs : bs with
+      | nil =>
+        subst hbs
+        simp [parse, renderCall, endsAbsent_single, hc]
+      | cons b2 bs2 =>
+        subst hbs
+        rw [parse_ros _ _ (by simp)]
+        simp only [List.map_cons] at ih' ⊢
+        rw [ih', endsAbsent_cons_cons]
+
+/-- the recorded `argSource` is the call as written without the blanks between the arguments -/
+theorem sources_flatten (cs : List ArgCall) : ((cs.map (fun c => some (argBody c))).filterMap id).flatten = callSource cs := by
+  induction cs with
+  | nil => rfl
+  | cons c cs ih =>
+    simp only [List.map_cons, List.filterMap_cons, id, List.flatten_cons, callSource]
+    rw [ih]
+
 theorem parse_append (as bs : List Arg) : ∀ (ts r r' : List Tok) (vs vs' : List Val) (ss ss' : List (Option (List Tok))),
     parse as ts = .ok (vs, ss, r) → parse bs r = .ok (vs', ss', r') →
     parse (as ++ bs) ts = .ok (vs ++ vs', ss ++ ss', r') := by
